@@ -117,7 +117,7 @@ VARIABLES
   \* kernel
   kin, kout,
   \* ghosts
-  hist, consumed, written, sched
+  hist, dcat, consumed, written, sched
 
 cvars == <<cstate, nops, nbars, nsetl, nseth, closeCall, stopCall, released, wsub>>
 chvars == <<flags, clow, chigh, chFd>>
@@ -126,7 +126,8 @@ libvars == <<op, opq, grp, fdref, dord>>
 clvars == <<clq, cleanupRuns>>
 kvars == <<kin, kout>>
 gvars == <<consumed, written>>
-vars == <<cvars, chvars, chq, bq, bqSusp, stvars, libvars, bars, clvars, kvars, hist, gvars, sched>>
+hvars == <<hist, dcat>>
+vars == <<cvars, chvars, chq, bq, bqSusp, stvars, libvars, bars, clvars, kvars, hvars, gvars, sched>>
 
 Blk(k, o, v) == [k |-> k, o |-> o, v |-> v]
 NoPend == [o |-> 0, res |-> "none"]
@@ -153,7 +154,7 @@ Init ==
   /\ clq = "held" /\ cleanupRuns = 0
   /\ kin = [wpos |-> IF InFile THEN MaxIn ELSE 0, rpos |-> 0, closed |-> InFile]
   /\ kout = [content |-> <<>>, pread |-> 0, hup |-> FALSE]
-  /\ hist = [o \in Ops |-> <<>>]
+  /\ hist = [o \in Ops |-> <<>>] /\ dcat = [o \in Ops |-> <<>>]
   /\ consumed = [o \in Ops |-> <<>>] /\ written = [o \in Ops |-> <<>>]
   /\ sched = <<>>
 
@@ -169,13 +170,13 @@ CSetLow(v) ==
   /\ chq' = Append(chq, Blk("setlow", 0, v))
   /\ nsetl' = nsetl + 1 /\ Log("low", v, 0)
   /\ UNCHANGED <<cstate, nops, nbars, nseth, closeCall, stopCall, released, wsub, chvars, bq,
-                 bqSusp, stvars, libvars, bars, clvars, kvars, hist, gvars>>
+                 bqSusp, stvars, libvars, bars, clvars, kvars, hvars, gvars>>
 CSetHigh(v) ==
   /\ ~released
   /\ chq' = Append(chq, Blk("sethigh", 0, v))
   /\ nseth' = nseth + 1 /\ Log("high", v, 0)
   /\ UNCHANGED <<cstate, nops, nbars, nsetl, closeCall, stopCall, released, wsub, chvars, bq,
-                 bqSusp, stvars, libvars, bars, clvars, kvars, hist, gvars>>
+                 bqSusp, stvars, libvars, bars, clvars, kvars, hvars, gvars>>
 
 \* dispatch_io_read(channel, 0, n, q, handler) / dispatch_io_write(channel, 0, data, q, handler);
 \* regs = the regions of the data object of a write (consecutive bytes of the outbound source)
@@ -187,7 +188,7 @@ CSubmit(o, d, n, regs) ==
   /\ chq' = Append(chq, Blk("op", o, 0))
   /\ Log(IF d = "R" THEN "read" ELSE "write", n, IF Len(regs) = 2 THEN regs[1][2] ELSE 0)
   /\ UNCHANGED <<cstate, nbars, nsetl, nseth, closeCall, stopCall, released, chvars, bq, bqSusp,
-                 stvars, opq, grp, fdref, dord, bars, clvars, kvars, hist, gvars>>
+                 stvars, opq, grp, fdref, dord, bars, clvars, kvars, hvars, gvars>>
 
 CBarrier(b) ==
   /\ ~released /\ b = nbars + 1 /\ b \in Bars
@@ -195,7 +196,7 @@ CBarrier(b) ==
   /\ nbars' = b
   /\ chq' = Append(chq, Blk("barrier", b, 0)) /\ Log("barrier", b, 0)
   /\ UNCHANGED <<cstate, nops, nsetl, nseth, closeCall, stopCall, released, wsub, chvars, bq,
-                 bqSusp, stvars, libvars, clvars, kvars, hist, gvars>>
+                 bqSusp, stvars, libvars, clvars, kvars, hvars, gvars>>
 
 \* dispatch_io_close(channel, 0): "Don't close an already closed or stopped channel"
 CClose ==
@@ -204,7 +205,7 @@ CClose ==
   /\ chq' = IF flags = {} THEN Append(chq, Blk("close", 0, 0)) ELSE chq
   /\ Log("close", 0, 0)
   /\ UNCHANGED <<cstate, nops, nbars, nsetl, nseth, stopCall, released, wsub, chvars, bq, bqSusp,
-                 stvars, libvars, bars, clvars, kvars, hist, gvars>>
+                 stvars, libvars, bars, clvars, kvars, hvars, gvars>>
 
 \* dispatch_io_close(channel, DISPATCH_IO_STOP) -> _dispatch_io_stop: the flag is set by the caller
 CStop ==
@@ -215,13 +216,13 @@ CStop ==
           /\ chq' = Append(chq, Blk("stopc", 0, 0))
   /\ Log("stop", 0, 0)
   /\ UNCHANGED <<nops, nbars, nsetl, nseth, closeCall, released, wsub, clow, chigh, chFd, bq,
-                 bqSusp, stvars, libvars, bars, clvars, kvars, hist, gvars>>
+                 bqSusp, stvars, libvars, bars, clvars, kvars, hvars, gvars>>
 
 \* dispatch_release(channel): the client's reference
 CRelease ==
   /\ ~released /\ released' = TRUE /\ Log("release", 0, 0)
   /\ UNCHANGED <<cstate, nops, nbars, nsetl, nseth, closeCall, stopCall, wsub, chvars, chq, bq,
-                 bqSusp, stvars, libvars, bars, clvars, kvars, hist, gvars>>
+                 bqSusp, stvars, libvars, bars, clvars, kvars, hvars, gvars>>
 
 (* ------------------------------ channel queue ------------------------------ *)
 ChqStep ==
@@ -250,7 +251,7 @@ ChqStep ==
        [] b.k = "barrier" ->
             /\ bq' = Append(bq, b) /\ bars' = [bars EXCEPT ![b.o].st = "bq"]
             /\ UNCHANGED <<chvars, op>>
-  /\ UNCHANGED <<cvars, bqSusp, stvars, opq, grp, fdref, dord, clvars, kvars, hist, gvars, sched>>
+  /\ UNCHANGED <<cvars, bqSusp, stvars, opq, grp, fdref, dord, clvars, kvars, hvars, gvars, sched>>
 
 (* ------------------------------ deliveries ------------------------------ *)
 Inv(done, data, null, err) == [done |-> done, data |-> IF null THEN <<>> ELSE data, null |-> null, err |-> err]
@@ -389,18 +390,18 @@ BqStep ==
             /\ bqSusp' = bqSusp + 1
             /\ bars' = [bars EXCEPT ![b.o].st = "armed"]
             /\ UNCHANGED <<chvars, sq, libvars>>
-  /\ UNCHANGED <<cvars, chq, pend, sops, cur, srcRun, clvars, kvars, hist, gvars, sched>>
+  /\ UNCHANGED <<cvars, chq, pend, sops, cur, srcRun, clvars, kvars, hvars, gvars, sched>>
 
 \* group count zero -> the notify block runs the client's barrier block
 BarrierStart(b) ==
   /\ bars[b].st = "armed" /\ grp = 0
   /\ bars' = [bars EXCEPT ![b].st = "running"]
-  /\ UNCHANGED <<cvars, chvars, chq, bq, bqSusp, stvars, libvars, clvars, kvars, hist, gvars, sched>>
+  /\ UNCHANGED <<cvars, chvars, chq, bq, bqSusp, stvars, libvars, clvars, kvars, hvars, gvars, sched>>
 BarrierEnd(b) ==
   /\ bars[b].st = "running"
   /\ bars' = [bars EXCEPT ![b].st = "done"]
   /\ bqSusp' = bqSusp - 1
-  /\ UNCHANGED <<cvars, chvars, chq, bq, stvars, libvars, clvars, kvars, hist, gvars, sched>>
+  /\ UNCHANGED <<cvars, chvars, chq, bq, stvars, libvars, clvars, kvars, hvars, gvars, sched>>
 
 (* ------------------------------ stream queues ------------------------------ *)
 SqHead(d, k) == pend[d].o = 0 /\ sq[d] # <<>> /\ Head(sq[d]).k = k
@@ -421,7 +422,7 @@ SqSenq(d) ==
         ELSE /\ SetLib([S0 EXCEPT !.op[o].st = "listed"])
              /\ sops' = [sops EXCEPT ![d] = Append(@, o)]
              /\ sq' = [sq EXCEPT ![d] = IF sops[d] = <<>> THEN Requeue(Tail(@)) ELSE Tail(@)]
-  /\ UNCHANGED <<cvars, chvars, chq, bq, bqSusp, pend, cur, srcRun, bars, clvars, kvars, hist, gvars, sched>>
+  /\ UNCHANGED <<cvars, chvars, chq, bq, bqSusp, pend, cur, srcRun, bars, clvars, kvars, hvars, gvars, sched>>
 
 \* _dispatch_stream_cleanup_operations (posted by STOP), then the fd_entry release of the block
 SqCleanup(d) ==
@@ -432,7 +433,7 @@ SqCleanup(d) ==
   /\ cur' = [cur EXCEPT ![d] = 0]
   /\ srcRun' = [srcRun EXCEPT ![d] = FALSE]
   /\ sq' = [sq EXCEPT ![d] = Tail(@)]
-  /\ UNCHANGED <<cvars, chvars, chq, bq, bqSusp, pend, bars, clvars, kvars, hist, gvars, sched>>
+  /\ UNCHANGED <<cvars, chvars, chq, bq, bqSusp, pend, bars, clvars, kvars, hvars, gvars, sched>>
 
 \* _dispatch_stream_pick_next_operation (stream-type operations only)
 PickOne(c, list) == IF c # 0 THEN c
@@ -527,7 +528,7 @@ SqPerform(d, KS(_, _)) ==
                /\ fdref' = fdref + 1                    \* _dispatch_fd_entry_retain
                /\ IF d = "R" THEN PerformRead(d, o, KS) ELSE PerformWrite(d, o, KS)
                /\ UNCHANGED <<sops, opq, grp, dord>>
-  /\ UNCHANGED <<cvars, chvars, chq, bq, bqSusp, srcRun, bars, clvars, hist, sched>>
+  /\ UNCHANGED <<cvars, chvars, chq, bq, bqSusp, srcRun, bars, clvars, hvars, sched>>
 
 \* the switch on the result, deliveries, completion, re-arming
 SqFinish(d) ==
@@ -563,7 +564,7 @@ SqFinish(d) ==
                /\ srcRun' = [srcRun EXCEPT ![d] = TRUE]
                /\ fdref' = fdref - 1
                /\ UNCHANGED <<sq, sops, cur, op, opq, grp, dord>>
-  /\ UNCHANGED <<cvars, chvars, chq, bq, bqSusp, bars, clvars, kvars, hist, gvars, sched>>
+  /\ UNCHANGED <<cvars, chvars, chq, bq, bqSusp, bars, clvars, kvars, hvars, gvars, sched>>
 
 \* the read / write source of the stream fires: _dispatch_stream_source_handler
 Ready(d) == IF d = "R" THEN kin.wpos > kin.rpos \/ kin.closed
@@ -572,7 +573,7 @@ SourceFire(d) ==
   /\ srcRun[d] /\ Ready(d)
   /\ srcRun' = [srcRun EXCEPT ![d] = FALSE]
   /\ sq' = [sq EXCEPT ![d] = Requeue(@)]
-  /\ UNCHANGED <<cvars, chvars, chq, bq, bqSusp, pend, sops, cur, libvars, bars, clvars, kvars, hist, gvars, sched>>
+  /\ UNCHANGED <<cvars, chvars, chq, bq, bqSusp, pend, sops, cur, libvars, bars, clvars, kvars, hvars, gvars, sched>>
 
 (* ------------------------------ handlers, cleanup ------------------------------ *)
 \* one invocation of the operation's handler (op_q is a serial queue: one at a time, FIFO);
@@ -581,6 +582,7 @@ HandlerRun(o) ==
   /\ opq[o] # <<>>
   /\ LET blk == Head(opq[o]) IN
      /\ hist' = [hist EXCEPT ![o] = Append(@, blk.inv[1])]
+     /\ dcat' = [dcat EXCEPT ![o] = Norm(@ \o blk.inv[1].data)]
      /\ IF Len(blk.inv) = 1
         THEN /\ opq' = [opq EXCEPT ![o] = Tail(@)]
              /\ fdref' = IF blk.ref THEN fdref - 1 ELSE fdref
@@ -592,11 +594,11 @@ HandlerRun(o) ==
 CloseQRun ==
   /\ fdref = 0 /\ clq = "held"
   /\ clq' = "posted"
-  /\ UNCHANGED <<cvars, chvars, chq, bq, bqSusp, stvars, libvars, bars, cleanupRuns, kvars, hist, gvars, sched>>
+  /\ UNCHANGED <<cvars, chvars, chq, bq, bqSusp, stvars, libvars, bars, cleanupRuns, kvars, hvars, gvars, sched>>
 CleanupRun ==
   /\ clq = "posted"
   /\ clq' = "ran" /\ cleanupRuns' = cleanupRuns + 1
-  /\ UNCHANGED <<cvars, chvars, chq, bq, bqSusp, stvars, libvars, bars, kvars, hist, gvars, sched>>
+  /\ UNCHANGED <<cvars, chvars, chq, bq, bqSusp, stvars, libvars, bars, kvars, hvars, gvars, sched>>
 
 \* _dispatch_io_dispose: last reference (the client's, every block's and operation's) gone
 ChannelIdle == /\ chq = <<>> /\ bq = <<>>
@@ -606,25 +608,25 @@ ChannelIdle == /\ chq = <<>> /\ bq = <<>>
 ChannelDispose ==
   /\ released /\ chFd /\ flags = {} /\ ChannelIdle
   /\ chFd' = FALSE /\ fdref' = fdref - 1
-  /\ UNCHANGED <<cvars, flags, clow, chigh, chq, bq, bqSusp, stvars, op, opq, grp, dord, bars, clvars, kvars, hist, gvars, sched>>
+  /\ UNCHANGED <<cvars, flags, clow, chigh, chq, bq, bqSusp, stvars, op, opq, grp, dord, bars, clvars, kvars, hvars, gvars, sched>>
 
 (* ------------------------------ the peer / kernel environment ------------------------------ *)
 PeerWrite(k) ==
   /\ ~kin.closed
   /\ kin' = [kin EXCEPT !.wpos = @ + k] /\ UNCHANGED kout /\ Log("pw", k, 0)
-  /\ UNCHANGED <<cvars, chvars, chq, bq, bqSusp, stvars, libvars, bars, clvars, hist, gvars>>
+  /\ UNCHANGED <<cvars, chvars, chq, bq, bqSusp, stvars, libvars, bars, clvars, hvars, gvars>>
 PeerClose ==
   /\ ~kin.closed
   /\ kin' = [kin EXCEPT !.closed = TRUE] /\ UNCHANGED kout /\ Log("pc", 0, 0)
-  /\ UNCHANGED <<cvars, chvars, chq, bq, bqSusp, stvars, libvars, bars, clvars, hist, gvars>>
+  /\ UNCHANGED <<cvars, chvars, chq, bq, bqSusp, stvars, libvars, bars, clvars, hvars, gvars>>
 PeerRead(k) ==
   /\ k >= 1 /\ kout.pread + k <= Size(kout.content)
   /\ kout' = [kout EXCEPT !.pread = @ + k] /\ UNCHANGED kin /\ Log("pr", k, 0)
-  /\ UNCHANGED <<cvars, chvars, chq, bq, bqSusp, stvars, libvars, bars, clvars, hist, gvars>>
+  /\ UNCHANGED <<cvars, chvars, chq, bq, bqSusp, stvars, libvars, bars, clvars, hvars, gvars>>
 PeerHup ==
   /\ ~kout.hup
   /\ kout' = [kout EXCEPT !.hup = TRUE] /\ UNCHANGED kin /\ Log("ph", 0, 0)
-  /\ UNCHANGED <<cvars, chvars, chq, bq, bqSusp, stvars, libvars, bars, clvars, hist, gvars>>
+  /\ UNCHANGED <<cvars, chvars, chq, bq, bqSusp, stvars, libvars, bars, clvars, hvars, gvars>>
 
 (* ------------------------------ next-state relation (model checking) ------------------------------ *)
 AllK(o, m) == 1 .. m
@@ -645,7 +647,7 @@ ClientBurst ==
      \/ /\ "release" \in Feat /\ CRelease
      \/ /\ cstate' = "run"
         /\ UNCHANGED <<nops, nbars, nsetl, nseth, closeCall, stopCall, released, wsub, chvars, chq, bq,
-                       bqSusp, stvars, libvars, bars, clvars, kvars, hist, gvars, sched>>
+                       bqSusp, stvars, libvars, bars, clvars, kvars, hvars, gvars, sched>>
 ClientStop == /\ cstate = "run" /\ "stop" \in Feat /\ ~stopCall /\ ~released
               /\ CStop /\ cstate' = "burst"
 
@@ -680,9 +682,8 @@ Fair == /\ WF_vars(ChqStep) /\ WF_vars(BqStep)
 FairSpec == Spec /\ Fair
 
 (* ------------------------------ the property (C14) ------------------------------ *)
-RECURSIVE CatData(_)
-CatData(h) == IF h = <<>> THEN <<>> ELSE h[1].data \o CatData(Tail(h))
-DoneSeen(o) == \E i \in 1 .. Len(hist[o]) : hist[o][i].done
+\* dcat[o] = the data passed to o's handler so far, concatenated in invocation order
+DoneSeen(o) == hist[o] # <<>> /\ hist[o][Len(hist[o])].done
 Submitted == {o \in Ops : op[o].st # "none"}
 
 TypeOK ==
@@ -693,9 +694,9 @@ TypeOK ==
 \* the operation consumed from the descriptor (a prefix of them while it runs), at most `len`
 ReadConservation ==
   \A o \in Submitted : op[o].dir = "R" =>
-     /\ IsPrefix(CatData(hist[o]), consumed[o])
+     /\ IsPrefix(dcat[o], consumed[o])
      /\ Size(consumed[o]) <= op[o].len
-     /\ DoneSeen(o) => SameBytes(CatData(hist[o]), consumed[o])
+     /\ DoneSeen(o) => SameBytes(dcat[o], consumed[o])
 \* ... never larger per invocation than the high-water mark
 HighWater ==
   \A o \in Submitted : op[o].dir = "R" /\ op[o].st \notin {"chq", "imm", "rejected"} =>
